@@ -408,10 +408,15 @@ fn prepopulate(dir: &Path, lc: &LC) {
     }
 }
 
+fn probe_site(i: usize) -> Option<(&'static str, &'static str, u32)> {
+    if i % 2 == 0 { Some(("app::probe", "src/probe.rs", 10 + i as u32)) } else { None }
+}
+
 fn drive(config: Config, probes: &[(String, u8, String)]) -> Result<(), String> {
     let logger = catch(|| log4rs::Logger::new(config))?;
-    for (t, l, m) in probes {
-        catch(|| with_record(t, LEVELS[*l as usize % 5], m, |r| logger.log(r)))?;
+    for (i, (t, l, m)) in probes.iter().enumerate() {
+        // every second probe knows where it was logged from
+        catch(|| crate::glue::with_record_at(t, LEVELS[*l as usize % 5], m, probe_site(i), |r| logger.log(r)))?;
     }
     drop(logger);
     Ok(())
@@ -460,7 +465,7 @@ fn predicted_file(lc: &LC, routing: &LCfg, a: &LApp, probes: &[(String, u8, Stri
     if lc.prepopulate && append.unwrap_or(true) {
         lines.push("PRE|existing|content".to_string());
     }
-    for (t, l, m) in probes {
+    for (pi, (t, l, m)) in probes.iter().enumerate() {
         let level = LEVELS[*l as usize % 5];
         if routing.effective(t) != routing.effective_textual(t) {
             return None;
@@ -476,7 +481,12 @@ fn predicted_file(lc: &LC, routing: &LCfg, a: &LApp, probes: &[(String, u8, Stri
                 Enc::Pattern { pattern: Some(_), .. } => return None,
                 Enc::Omitted | Enc::Pattern { pattern: None, .. } => format!("{} {} - {}", level, t, m),
                 Enc::Json => {
-                    let o = serde_json::json!({"level": level.to_string(), "message": m, "target": t, "thread": "main", "mdc": {}});
+                    let mut o = serde_json::json!({"level": level.to_string(), "message": m, "target": t, "thread": "main", "mdc": {}});
+                    if let Some((mp, f, ln)) = probe_site(pi) {
+                        o["module_path"] = mp.into();
+                        o["file"] = f.into();
+                        o["line"] = ln.into();
+                    }
                     o.to_string()
                 }
             };
